@@ -37,17 +37,34 @@ Proof. unfold vacct. intros (A1 & A2 & A3) (B1 & B2 & B3). rewrite !total_app. r
 Lemma sacct_trans e1 e2 k a b c : sacct e1 k a b -> sacct e2 k b c -> sacct (e2 ++ e1) k a c.
 Proof. unfold sacct. intros (A1 & A2 & A3) (B1 & B2 & B3). rewrite !total_app. repeat split; lra. Qed.
 
+(* the entities a book event names exist (so the per-entity sums regroup into fleet totals: Fleet.v) *)
+Definition named (s : Sim) (e : Event) : Prop :=
+  match e with
+  | EvCharge v sid _ _ _ _ _ => find v (vehicles s) <> None /\ find sid (stations s) <> None
+  | EvMove v _ _ => find v (vehicles s) <> None
+  | EvPickup _ v _ _ _ => find v (vehicles s) <> None
+  | _ => True
+  end.
+Definition dom_kept (s s' : Sim) : Prop :=
+  (forall k, find k (vehicles s) = None -> find k (vehicles s') = None) /\ (forall k, find k (stations s) = None -> find k (stations s') = None).
+Lemma named_back a b e : dom_kept a b -> named b e -> named a e.
+Proof. intros (Dv & Ds) N. destruct e; cbn in *; auto; try (intro Z; apply N; apply Dv; exact Z). destruct N as (N1 & N2). split; intro Z; [apply N1, Dv|apply N2, Ds]; exact Z. Qed.
+Lemma dom_add {A} (m : PM.t A) k0 old w : PM.find k0 m = Some old -> forall k, PM.find k m = None -> PM.find k (PM.add k0 w m) = None.
+Proof. intros F k Fk. destruct (Pos.eq_dec k k0) as [->|N]; [congruence|rewrite PM.gso by exact N; exact Fk]. Qed.
 Definition acct (s s' : Sim) : Prop :=
   vkeys s -> skeys (stations s) ->
   vkeys s' /\ skeys (stations s') /\ exists evs, log s' = evs ++ log s /\
     (forall k v, find k (vehicles s) = Some v -> exists v', find k (vehicles s') = Some v' /\ vacct evs k v v') /\
-    (forall k x, find k (stations s) = Some x -> exists x', find k (stations s') = Some x' /\ sacct evs k x x').
+    (forall k x, find k (stations s) = Some x -> exists x', find k (stations s') = Some x' /\ sacct evs k x x') /\
+    dom_kept s s' /\ Forall (named s) evs.
 Lemma acct_refl s : acct s s.
-Proof. intros K SK. split; [exact K|]. split; [exact SK|]. exists []. split; [reflexivity|]. split; intros k v F; exists v; auto using vacct_refl, sacct_refl. Qed.
+Proof. intros K SK. split; [exact K|]. split; [exact SK|]. exists []. split; [reflexivity|]. split; [|split; [|split; [split; auto|constructor]]]; intros k v F; exists v; auto using vacct_refl, sacct_refl. Qed.
 Lemma acct_trans a b c : acct a b -> acct b c -> acct a c.
 Proof.
-  intros A B K SK. destruct (A K SK) as (K2 & SK2 & e1 & L1 & V1 & S1). destruct (B K2 SK2) as (K3 & SK3 & e2 & L2 & V2 & S2).
-  split; [exact K3|]. split; [exact SK3|]. exists (e2 ++ e1). split; [rewrite L2, L1, app_assoc; reflexivity|]. split.
+  intros A B K SK. destruct (A K SK) as (K2 & SK2 & e1 & L1 & V1 & S1 & D1 & N1). destruct (B K2 SK2) as (K3 & SK3 & e2 & L2 & V2 & S2 & D2 & N2).
+  split; [exact K3|]. split; [exact SK3|]. exists (e2 ++ e1). split; [rewrite L2, L1, app_assoc; reflexivity|]. split; [|split; [|split]]; cycle 2.
+  - destruct D1, D2. split; auto.
+  - apply Forall_app. split; [|exact N1]. eapply Forall_impl; [|exact N2]. intros e. apply named_back. exact D1.
   - intros k v F. destruct (V1 k v F) as (v1 & F1 & A1). destruct (V2 k v1 F1) as (v2 & F2 & A2). exists v2. split; [exact F2|eapply vacct_trans; eauto].
   - intros k v F. destruct (S1 k v F) as (v1 & F1 & A1). destruct (S2 k v1 F1) as (v2 & F2 & A2). exists v2. split; [exact F2|eapply sacct_trans; eauto].
 Qed.
@@ -56,13 +73,17 @@ Qed.
 Definition bookless (e : Event) : Prop := match e with EvMove _ _ _ | EvCharge _ _ _ _ _ _ _ | EvPickup _ _ _ _ _ => False | _ => True end.
 Lemma total_bookless f evs k : (forall e, bookless e -> f e k = 0) -> Forall bookless evs -> total f evs k == 0.
 Proof. intros Hf. induction 1 as [|e evs B _ IH]; cbn; [lra|]. rewrite (Hf e B), IH. lra. Qed.
+Lemma named_bookless s evs : Forall bookless evs -> Forall (named s) evs.
+Proof. intro B. eapply Forall_impl; [|exact B]. intros e Be. destruct e; cbn in *; tauto. Qed.
 Lemma acct_same s s' evs : vehicles s' = vehicles s -> stations s' = stations s -> log s' = evs ++ log s -> Forall bookless evs -> acct s s'.
 Proof.
   intros V S L B K SK. split; [unfold vkeys; rewrite V; exact K|]. split; [rewrite S; exact SK|]. exists evs. split; [exact L|].
   assert (Z : forall f k, (forall e, bookless e -> f e k = 0) -> total f evs k == 0) by (intros; apply total_bookless; auto).
-  split; intros k v F; exists v; rewrite ?V, ?S; (split; [exact F|]).
-  - unfold vacct. rewrite !Z; try (intros e Be; destruct e; cbn in Be; try contradiction; reflexivity). repeat split; lra.
-  - unfold sacct. rewrite !Z; try (intros e Be; destruct e; cbn in Be; try contradiction; reflexivity). repeat split; lra.
+  split; [|split; [|split]]; cycle 2.
+  - split; intros k F; rewrite ?V, ?S; exact F.
+  - apply named_bookless. exact B.
+  - intros k v F; exists v; rewrite ?V, ?S; (split; [exact F|]). unfold vacct. rewrite !Z; try (intros e Be; destruct e; cbn in Be; try contradiction; reflexivity). repeat split; lra.
+  - intros k v F; exists v; rewrite ?V, ?S; (split; [exact F|]). unfold sacct. rewrite !Z; try (intros e Be; destruct e; cbn in Be; try contradiction; reflexivity). repeat split; lra.
 Qed.
 
 Section A.
@@ -88,7 +109,9 @@ Proof.
     + rewrite PM.gso in Fk by exact N. apply K. exact Fk.
   - exists evs. split; [exact L|].
     assert (Z : forall f k, (forall e, bookless e -> f e k = 0) -> total f evs k == 0) by (intros; apply total_bookless; auto).
-    split.
+    split; [|split; [|split]]; cycle 2.
+    + split; [|rewrite S; auto]. unfold find in *. rewrite V. eapply dom_add; exact F.
+    + apply named_bookless. exact B.
     + intros k v Fk. unfold find in *. rewrite V. destruct (Pos.eq_dec k (v_id w)) as [->|N].
       * rewrite PM.gss. exists w. split; [reflexivity|]. rewrite F in Fk. inv Fk. unfold vacct. rewrite Ho, Hg, Hb.
         rewrite !Z; try (intros e Be; destruct e; cbn in Be; try contradiction; reflexivity). repeat split; lra.
@@ -113,7 +136,9 @@ Lemma mods_acct s x s' old : modify_station env s x = Ok s' -> find (s_id x) (st
   s_balance x = s_balance old -> s_disp_e x = s_disp_e old -> s_disp_g x = s_disp_g old -> acct s s'.
 Proof.
   intros M F Hb He Hg K SK. apply modify_station_spec in M. destruct M as (_ & S & V & _ & _ & _ & _ & _ & L).
-  split; [unfold vkeys; rewrite V; exact K|]. split; [rewrite S; apply skeys_add; exact SK|]. exists []. split; [exact L|]. split.
+  split; [unfold vkeys; rewrite V; exact K|]. split; [rewrite S; apply skeys_add; exact SK|]. exists []. split; [exact L|]. split; [|split; [|split]]; cycle 2.
+  - split; [rewrite V; auto|]. unfold find in *. rewrite S. eapply dom_add; exact F.
+  - constructor.
   - intros k v Fk. exists v. rewrite V. split; [exact Fk|apply vacct_refl].
   - intros k y Fk. unfold find in *. rewrite S. destruct (Pos.eq_dec k (s_id x)) as [->|N].
     + rewrite PM.gss. exists x. split; [reflexivity|]. rewrite F in Fk. inv Fk. unfold sacct. cbn. rewrite Hb, He, Hg. repeat split; lra.
@@ -168,7 +193,9 @@ Proof.
   - intros k x Fk. unfold find in *. rewrite V in Fk. destruct (Pos.eq_dec k vid) as [->|N].
     + rewrite PM.gss in Fk. inv Fk. reflexivity.
     + rewrite PM.gso in Fk by exact N. apply K. exact Fk.
-  - exists [EvPickup rid vid (sim_time s) (r_dep r) (r_value r)]. split; [exact L|]. split.
+  - exists [EvPickup rid vid (sim_time s) (r_dep r) (r_value r)]. split; [exact L|]. split; [|split; [|split]]; cycle 2.
+    + split; [|rewrite S; auto]. unfold find in *. rewrite V. eapply dom_add; exact Fv.
+    + constructor; [cbn; congruence|constructor].
     + intros k x Fk. unfold find in *. rewrite V. destruct (Pos.eq_dec k vid) as [->|N].
       * rewrite PM.gss. eexists. split; [reflexivity|]. rewrite Fv in Fk. inv Fk. unfold vacct. cbn. rewrite Pos.eqb_refl. repeat split; lra.
       * rewrite PM.gso by exact N. exists x. split; [exact Fk|]. unfold vacct. cbn.
@@ -223,13 +250,15 @@ Lemma vwrite1_acct s s' e old w k : find k (vehicles s) = Some old -> v_id w = k
   (forall j, j <> k -> ev_moved e j = 0 /\ ev_charged e j = 0 /\ ev_paid e j = 0 /\ ev_fare e j = 0) ->
   (forall j, ev_recv e j = 0 /\ ev_disp Electric e j = 0 /\ ev_disp Gasoline e j = 0) ->
   v_odo w == v_odo old + ev_moved e k -> v_gained w == v_gained old + ev_charged e k ->
-  v_balance w == v_balance old + ev_fare e k - ev_paid e k -> acct s s'.
+  v_balance w == v_balance old + ev_fare e k - ev_paid e k -> named s e -> acct s s'.
 Proof.
-  intros F Hid V S L Oth St Ho Hg Hb K SK. split; [|split; [rewrite S; exact SK|]].
+  intros F Hid V S L Oth St Ho Hg Hb Nm K SK. split; [|split; [rewrite S; exact SK|]].
   - intros j x Fj. unfold find in *. rewrite V in Fj. destruct (Pos.eq_dec j k) as [->|N].
     + rewrite PM.gss in Fj. inv Fj. reflexivity.
     + rewrite PM.gso in Fj by exact N. apply K. exact Fj.
-  - exists [e]. split; [exact L|]. split.
+  - exists [e]. split; [exact L|]. split; [|split; [|split]]; cycle 2.
+    + split; [|rewrite S; auto]. unfold find in *. rewrite V. eapply dom_add; exact F.
+    + constructor; [exact Nm|constructor].
     + intros j x Fj. unfold find in *. rewrite V. destruct (Pos.eq_dec j k) as [->|N].
       * rewrite PM.gss. exists w. split; [reflexivity|]. rewrite F in Fj. inv Fj. unfold vacct. cbn. repeat split; lra.
       * rewrite PM.gso by exact N. exists x. split; [exact Fj|]. destruct (Oth j N) as (A & B & C & D). unfold vacct. cbn. rewrite A, B, C, D. repeat split; lra.
@@ -263,6 +292,7 @@ Proof.
     + cbn. rewrite Pos.eqb_refl. lra.
     + cbn. rewrite (proj1 (proj2 (proj2 (MC _)))). lra.
     + cbn. rewrite (proj2 (proj2 (proj2 (MC _)))). lra.
+    + cbn. congruence.
 Qed.
 
 Lemma charge_acct s vid sid cid s' : charge env s vid sid cid = Ok s' -> acct s s'.
@@ -279,7 +309,9 @@ Proof.
     + rewrite PM.gss in Fj. inv Fj. apply E1.
     + rewrite PM.gso in Fj by exact N. apply K. exact Fj.
   - rewrite S. rewrite <- (E2 (tariff_price st cid (v_energy v1 - v_energy v)) (c_etype c) (v_energy v1 - v_energy v)) at 1. apply skeys_add. exact SK.
-  - eexists [_]. split; [exact Lg|]. split.
+  - eexists [_]. split; [exact Lg|]. split; [|split; [|split]]; cycle 2.
+    + unfold find in *. split; [rewrite V|rewrite S]; eapply dom_add; eassumption.
+    + constructor; [cbn; split; congruence|constructor].
     + intros j x Fj. unfold find in *. rewrite V. destruct (Pos.eq_dec j vid) as [->|N].
       * rewrite PM.gss. eexists. split; [reflexivity|]. rewrite Fv in Fj. inv Fj. unfold vacct. cbn. rewrite Pos.eqb_refl. rewrite Eo, Eb. repeat split; lra.
       * rewrite PM.gso by exact N. exists x. split; [exact Fj|]. unfold vacct. cbn. destruct (Pos.eqb_spec vid j); [congruence|]. repeat split; lra.
@@ -382,7 +414,7 @@ Theorem books_over_histories ops s0 : vkeys s0 -> skeys (stations s0) -> Forall 
   (forall k v0, find k (vehicles s0) = Some v0 -> exists v, find k (vehicles s) = Some v /\ vacct (log s) k v0 v) /\
   (forall k x0, find k (stations s0) = Some x0 -> exists x, find k (stations s) = Some x /\ sacct (log s) k x0 x).
 Proof.
-  intros K SK Hok L0. cbv zeta. destruct (acct_over_histories ops s0 K SK Hok K SK) as (_ & _ & evs & L & V & S).
+  intros K SK Hok L0. cbv zeta. destruct (acct_over_histories ops s0 K SK Hok K SK) as (_ & _ & evs & L & V & S & _).
   rewrite L0, app_nil_r in L. rewrite L. auto.
 Qed.
 End A.
